@@ -1466,7 +1466,7 @@ class Interp:
             if '$seq' in env and indexed is not None:
                 x = env['$seq'][1](x)
             self.assign(st.target, x, env)
-            ctx.events.append(Event('iter-begin', lid=lid, elem=x, loops=list(ctx.loop_stack)))
+            ctx.events.append(Event('iter-begin', lid=lid, elem=x, loops=list(ctx.loop_stack), mark=Obj._n))
             try:
                 self.block(st.body, env)
                 how = 'end'
